@@ -135,3 +135,14 @@ Proof.
   destruct (c_auth c), (c_ign c), (c_mux c); reflexivity.
 Qed.
 Print Assumptions gen_ssh_argv_is_the_model.
+
+(* ---- linux/copy.py: the argv _scp_copy hands to exec0, for EVERY configuration, direction and pair of paths ---- *)
+Theorem gen_scp_argv_is_the_model :
+  forall c muxdir to_remote localp remotep,
+  gen_scp_argv c muxdir to_remote localp remotep = scp_argv c muxdir to_remote localp remotep.
+Proof.
+  intros c muxdir to_remote localp remotep.
+  unfold gen_scp_argv, scp_argv, hk_part, mux_part, oflat, dest. cbv zeta.
+  destruct (c_auth c), (c_ign c), (c_mux c), to_remote; cbn [app]; rewrite <- ?app_assoc; cbn [app]; reflexivity.
+Qed.
+Print Assumptions gen_scp_argv_is_the_model.
